@@ -13,7 +13,7 @@ RULE = (
     "reader task: HeartBtInt hb in [1, 120] s; phase of the last inbound frame relative to the 1 s watchdog tick in [0, 1); "
     "peer script in {silent from t0; periodic traffic with period 0.3/0.6/0.9/1.1/1.7 x hb (valid Heartbeats or application "
     "messages); burst then silence; answers every TestRequest after a delay in [0, 2.2 hb] with the right / a wrong / a "
-    "numerically lower / non-numeric / no TestReqID / (from the second TestRequest on) the id of the previous TestRequest, optionally sending an application message while its answer is under way or with one of its frames lost right before the answer; answers the first 1-3 TestRequests and is dead from then on; is live while the wall clock steps forward by 2.5-20 intervals (outcome FREE, counted); sends its own TestRequests "
+    "right id at the end of a coalesced write of 4096+k bytes or behind a 70 KB message / numerically lower / non-numeric / no TestReqID / (from the second TestRequest on) the id of the previous TestRequest, optionally sending an application message while its answer is under way or with one of its frames lost right before the answer; answers the first 1-3 TestRequests and is dead from then on; is live while the wall clock steps forward by 2.5-20 intervals (outcome FREE, counted); sends its own TestRequests "
     "(ids text, numbers, '0', '00', base64-like with '=' inside; optionally every second one preceded by a lost frame); reveals a gap and replays it slowly but steadily (one PossDup message every 0.3-0.8 hb)}; the scripted "
     "peer answers the endpoint's ResendRequests with a GapFill; the scenario runs on the first or on the second connection of the same object, optionally after the peer sent a ResendRequest (valid, beyond what was sent, or inverted) earlier in the session; optional own outbound application traffic. Oracle (tolerances: "
     "tick 1 s, TestReqID truncation 1 s): silent peer -> TestRequest within (hb-1, hb+1] s of the last inbound frame, "
@@ -120,6 +120,23 @@ def run_scenario(acc, sc):
                         feed("0", [(112, "1")])
                     elif idkind == "nonnumeric":
                         feed("0", [(112, "abc")])
+                    elif idkind in ("right-burst", "right-big"):
+                        # the right answer at the end of one coalesced write: behind an application message padded so that the
+                        # write is 4096 + k bytes (k = 1..7: the read boundary falls inside the answer's CheckSum field), or
+                        # behind a 70 KB application message
+                        if b.disconnected() or ep._socket_reader is None:
+                            return
+                        hbf = b.frame("0", state["seq"] + 1, [(112, tid)])
+                        if idkind == "right-big":
+                            appf = b.frame("B", state["seq"], [(148, "big"), (58, "x" * 70000)])
+                        else:
+                            k = 1 + (len(trs) % 7)
+                            base = len(b.frame("B", state["seq"], [(148, "pad"), (58, "")]))
+                            fill = 4096 + k - len(hbf) - base
+                            appf = b.frame("B", state["seq"], [(148, "pad"), (58, "y" * fill)])
+                            appf = b.frame("B", state["seq"], [(148, "pad"), (58, "y" * (fill - (len(appf) - base - fill)))])
+                        state["seq"] += 2
+                        reader.feed(appf + hbf)
                     elif idkind == "wrong-latin1":
                         feed("0", [(112, "12345\xe9")])  # a wrong id carrying a byte >= 0x80
                     elif idkind == "wrong-twice":
@@ -252,7 +269,7 @@ def run_scenario(acc, sc):
         elif kind == "answer":
             delay_f, idkind = script[1], script[2]
             d = delay_f * hb
-            if idkind == "right" and d <= 2 * hb - 2:
+            if idkind in ("right", "right-burst", "right-big") and d <= 2 * hb - 2:
                 if t_disc is not None:
                     bad("answering/disconnected", f"peer answers every TestRequest after {d:.2f} s with the right id, yet disconnected at t0+{t_disc - t0:.2f}")
                 # never two outstanding: consecutive TestRequests must be separated by an answer
@@ -350,6 +367,7 @@ script = st.one_of(
     st.tuples(st.just("peer-testreq"), st.sampled_from([0.3, 0.6, 0.9]), st.just(True)),
     st.tuples(st.just("slow-replay"), st.integers(3, 8), st.sampled_from([0.3, 0.5, 0.8])),
     st.tuples(st.just("answer"), st.sampled_from([0.0, 0.1, 0.3]), st.just("previous")),
+    st.tuples(st.just("answer"), st.sampled_from([0.0, 0.5, 0.9]), st.sampled_from(["right-burst", "right-burst", "right-big"])),
     st.tuples(st.just("answer-then-die"), st.sampled_from([0.0, 0.1, 0.3]), st.integers(1, 3)),
     st.tuples(st.just("clock-step"), st.sampled_from([0.3, 0.6]), st.sampled_from([2.5, 4, 20])),
 )
@@ -369,6 +387,7 @@ def grid(acc, role):
             for sc in ([("silent",)] + [("periodic", f, "0") for f in (0.3, 0.9, 1.1)] + [("answer", d, k) for d in (0.0, 0.9, 1.9) for k in ("right", "wrong", "wrong-low", "missing", "wrong-latin1", "wrong-twice")]
                        + [("peer-testreq", 0.6)] + [("burst", 3, 1.0)] + [("answer", 1.5, "right", 0.3), ("answer", 1.9, "right", 0.6)]
                        + [("answer", 0.5, "right", None, True), ("peer-testreq", 0.6, True), ("slow-replay", 6, 0.5)]
+                       + [("answer", 0.5, "right-burst"), ("answer", 0.0, "right-big")]
                        + [("answer", 0.1, "previous"), ("answer-then-die", 0.0, 1), ("answer-then-die", 0.1, 2), ("clock-step", 0.3, 4)]):
                 run_scenario(acc, {"role": role, "hb": hb, "phase": phase, "script": sc, "own_traffic": False})
             for sc in [("silent",), ("answer", 0.9, "right"), ("periodic", 0.3, "0")]:
